@@ -36,6 +36,7 @@ type World struct {
 
 	logH     kyber.Scalar
 	logHDone bool
+	fco, gco []kyber.Scalar
 }
 
 // SeedSuite returns an Ed25519 suite whose random stream is derived from the labels.
@@ -88,7 +89,7 @@ func (w *World) one() kyber.Scalar { return w.S.Scalar().One() }
 // DealKinds lists the abstract deal kinds the harness can concretise for a variant.
 func DealKinds(variant string) []string {
 	k := []string{"good", "badshare", "badcommit", "tlow", "thigh", "wrongindex", "indexoor", "wrongrecipient",
-		"forgedsig", "sigreuse", "noshare", "nocommits", "garbage"}
+		"forgedsig", "sigreuse", "noshare", "nocommits", "garbage", "badsid", "otherpoly"}
 	if variant == "rabin" {
 		k = append(k, "badrnd", "rndindex", "equivocate")
 	}
@@ -135,6 +136,11 @@ func (w *World) corrupt(kind string, to int) (*PDeal, error) {
 		} else {
 			return nil, ErrUnwitnessed
 		}
+	case "otherpoly":
+		// dealer equivocation: the deal of ANOTHER polynomial of the same dealer (self-consistent), announcing
+		// the session id of this session
+		d = w.AltDeal[to].Clone()
+		d.SID = append([]byte(nil), w.SID...)
 	case "wrongindex":
 		d = w.Honest[(to+1)%w.N].Clone()
 	case "indexoor":
@@ -370,7 +376,88 @@ func (w *World) MakeResp(cls string, i int, approved bool) (*Resp, error) {
 
 func JustClasses() []string {
 	return []string{"correct", "wrongshare", "otherindex", "altcommit", "forgedcorrect", "unsignedcorrect",
-		"unsignedother", "unsignedwrong", "wrongsid", "oor", "resigother", "resigindex"}
+		"unsignedother", "unsignedwrong", "wrongsid", "oor", "resigother", "resigindex",
+		"altcoef", "altshort", "altlong", "altlongt", "altperm"}
+}
+
+// coeffs recovers the coefficients of the dealer's secret polynomial f (and, for rabin, of the blinding
+// polynomial g) from the n honest shares -- a malicious dealer knows them; the harness interpolates.
+func (w *World) coeffs() (a, b []kyber.Scalar, err error) {
+	if w.fco != nil {
+		return w.fco, w.gco, nil
+	}
+	fs := make([]*share.PriShare, w.N)
+	gs := make([]*share.PriShare, w.N)
+	for i, d := range w.Honest {
+		fs[i] = &share.PriShare{I: d.I, V: d.V}
+		if d.RV != nil {
+			gs[i] = &share.PriShare{I: d.RI, V: d.RV}
+		}
+	}
+	fp, err := share.RecoverPriPoly(w.S, fs, uint32(w.T), uint32(w.N))
+	if err != nil {
+		return nil, nil, err
+	}
+	w.fco = fp.Coefficients()
+	if gs[0] != nil {
+		gp, err := share.RecoverPriPoly(w.S, gs, uint32(w.T), uint32(w.N))
+		if err != nil {
+			return nil, nil, err
+		}
+		w.gco = gp.Coefficients()
+	}
+	return w.fco, w.gco, nil
+}
+
+// xpow returns (i+1)^k, the evaluation point of verifier i raised to k.
+func (w *World) xpow(i, k int) kyber.Scalar {
+	x := w.S.Scalar().SetInt64(int64(i + 1))
+	r := w.S.Scalar().One()
+	for ; k > 0; k-- {
+		r = r.Mul(r, x)
+	}
+	return r
+}
+
+// altFamily builds, for the complaint of verifier i, a deal whose share verifies against the commitments it
+// carries, these being a variation of the session's commitments.
+func (w *World) altFamily(cls string, i int, d *PDeal) error {
+	a, b, err := w.coeffs()
+	if err != nil || len(a) != w.T || len(d.Commits) != w.T {
+		return ErrUnwitnessed
+	}
+	T := w.T
+	sub := func(x, y kyber.Scalar) kyber.Scalar { return w.S.Scalar().Sub(x, y) }
+	mul := func(x, y kyber.Scalar) kyber.Scalar { return w.S.Scalar().Mul(x, y) }
+	switch cls {
+	case "altcoef": // last coefficient + G: f'(x) = f(x) + x^(T-1)
+		d.Commits[T-1] = w.S.Point().Add(d.Commits[T-1], w.S.Point().Base())
+		d.V = d.V.Add(d.V, w.xpow(i, T-1))
+	case "altlong", "altlongt": // session's commitments plus one more coefficient: f'(x) = f(x) + x^T
+		d.Commits = append(d.Commits, w.S.Point().Base())
+		d.V = d.V.Add(d.V, w.xpow(i, T))
+		if cls == "altlongt" {
+			if T+1 > w.N {
+				return ErrUnwitnessed
+			}
+			d.T = uint32(T + 1)
+		}
+	case "altshort": // a prefix of the session's commitments: f'(x) = f(x) - a_(T-1) x^(T-1)
+		d.Commits = d.Commits[:T-1]
+		d.V = sub(d.V, mul(a[T-1], w.xpow(i, T-1)))
+		if d.RV != nil {
+			d.RV = sub(d.RV, mul(b[T-1], w.xpow(i, T-1)))
+		}
+	case "altperm": // first two coefficients swapped: f'(x) = f(x) + (a1 - a0) + (a0 - a1) x
+		d.Commits[0], d.Commits[1] = d.Commits[1], d.Commits[0]
+		d.V = d.V.Add(d.V, w.S.Scalar().Add(sub(a[1], a[0]), mul(sub(a[0], a[1]), w.xpow(i, 1))))
+		if d.RV != nil {
+			d.RV = d.RV.Add(d.RV, w.S.Scalar().Add(sub(b[1], b[0]), mul(sub(b[0], b[1]), w.xpow(i, 1))))
+		}
+	default:
+		return fmt.Errorf("unknown class %q", cls)
+	}
+	return nil
 }
 
 // MakeJust concretises a justification class for the complaint of verifier i.
@@ -393,6 +480,10 @@ func (w *World) MakeJust(cls string, i int) (*Just, error) {
 		j.Deal.Commits = cs
 		if j.Deal.RV != nil {
 			j.Deal.RV = w.S.Scalar().Zero()
+		}
+	case "altcoef", "altshort", "altlong", "altlongt", "altperm":
+		if err := w.altFamily(cls, i, j.Deal); err != nil {
+			return nil, err
 		}
 	case "forgedcorrect":
 		key = w.Other
